@@ -79,8 +79,8 @@ DocumentedSize(ts) == Encodable(ts) =>
 NeverLossy(ts) == (ts # <<>> /\ \E i \in DOMAIN ts : Len(ts[i].v) > Limit /\ Kind(ts) # CharacterKind) => MakeIdx(ts).kind = "err"
 
 \* consecutive slices with exactly the character counts the index specifies
-ConsecutiveSlices(chars, toks) == /\ StringOf(toks) = SubSeq(chars, 1, Len(StringOf(toks)))
-                                  /\ Len(StringOf(toks)) <= Len(chars)
+ConsecutiveSlices(chars, toks) == /\ Len(StringOf(toks)) <= Len(chars)          \* (first: SubSeq beyond the string is an evaluation error)
+                                  /\ StringOf(toks) = SubSeq(chars, 1, Len(StringOf(toks)))
 TotalOK(chars, idx) ==
   LET r == Tok(chars, idx) IN
   /\ r.kind \in {"ok", "err"}
